@@ -557,6 +557,12 @@ def check(ctx):
     status_array_shape(ctx)
     loop_closure_every_level(ctx)
     closure_ok = start_closure(ctx)
+    guards.check_stale_loop_variables(ctx, [f for f in ctx.prog.all_functions() if f.module.name.startswith('adsg_core.graph.')])
+    # an instance whose derivation failed on an incompatibility is not an architecture of the closure semantics: it
+    # stays marked infeasible (both ends of the marking edge are looked at, whichever way the edge points)
+    from . import c06 as _c06
+    _c06.resolved_on_every_apply(ctx)
+    _c06.removal_shape(ctx)
     # the graph algorithms memoise in caller-provided cache dictionaries: keys cover what the value depends on
     from ..rules import persist as _psg
     _psg.check_memo_functions(ctx, [f for f in ctx.prog.all_functions() if f.module.name.startswith('adsg_core.graph.')])
